@@ -207,6 +207,16 @@ class Gen(object):
           now.add(c['id'])
     self.past_names = (getattr(self, 'past_names', set()) | getattr(self, 'prev_names', set())) - now
     self.prev_names = now
+    pat = self.flags.get('patterns', 0)
+    if pat and r.random() < pat:
+      # Stream B (off by default, so the default streams are unchanged): multi-step bundle patterns
+      # that need several cooperating actions to manifest (see pattern_bundle).
+      b = self.pattern_bundle(m)
+      if b:
+        self.last_kind = 'pattern'
+        pc = self.__dict__.setdefault('pattern_counts', {})
+        pc[self.last_pattern] = pc.get(self.last_pattern, 0) + 1
+        return b
     n = 1 if r.random() > self.flags['bundle_multi'] else r.randint(2, 4)
     out = []
     # Half of the multi-action bundles concentrate on one table (several edits of the same cells
@@ -220,6 +230,115 @@ class Gen(object):
         out.append(a)
     self.focus = None
     return out or [['Calculate']]
+
+  def pattern_bundle(self, m):
+    """Bundles in which several actions touch the same rows / cells / columns (flag 'patterns')."""
+    r = self.r
+    t = self._table(m)
+    if t is None:
+      return None
+    tid = t['id']
+    dc = datacols(t)
+    rows = t['rows']
+    def vals(n=1, cols=None):
+      return {c['id']: [self.value(c['type'], m) for _ in range(n)] for c in (cols if cols is not None else dc) if r.random() < 0.8}
+    def one(cv):
+      return {c: v[0] for c, v in cv.items()}
+    k = r.choice(['remove_add_same_id', 'add_remove_add', 'replace_keep_ids', 'type_and_formula', 'formula_then_type',
+                  'update_twice', 'update_then_upsert', 'rename_remove_formula', 'addcol_then_fill', 'remove_add_column',
+                  'add_update_remove', 'update_then_remove', 'type_twice', 'to_data_and_type'])
+    self.last_pattern = k
+    if k == 'remove_add_same_id' and rows:
+      x = r.choice(rows[-2:])
+      explicit = x if (r.random() < 0.5 or x != max(rows)) else None
+      return [['RemoveRecord', tid, x], ['AddRecord', tid, explicit, one(vals())]]
+    if k == 'add_remove_add':
+      x = max(rows or [0]) + 1
+      return [['AddRecord', tid, x, one(vals())], ['RemoveRecord', tid, x], ['AddRecord', tid, r.choice([x, None]), one(vals())]]
+    if k == 'replace_keep_ids' and rows:
+      keep = sorted(r.sample(rows, min(len(rows), r.randint(1, 3))))
+      new = keep + ([max(rows) + 1] if r.random() < 0.5 else [])
+      return [['ReplaceTableData', tid, new, vals(len(new))]]
+    if k in ('type_and_formula', 'formula_then_type', 'type_twice', 'to_data_and_type'):
+      free = lambda c: vis(c) and not c['summarySourceCol'] and not c['reverseCol'] and c['ref'] not in m.groupby_sources
+      if k == 'to_data_and_type':
+        cs = [c for c in t['cols'] if free(c) and c['isFormula']]
+      else:
+        cs = [c for c in t['cols'] if free(c) and not c['isFormula']]
+      if not cs:
+        return None
+      c = r.choice(cs)
+      typ = r.choice(['Int', 'Numeric', 'Text', 'Bool', 'Any', 'Choice', 'Date'])
+      if k == 'type_and_formula':
+        return [['ModifyColumn', tid, c['id'], {'type': typ, 'isFormula': True, 'formula': self.formula(m, t, c['id'])}]]
+      if k == 'formula_then_type':
+        return [['ModifyColumn', tid, c['id'], {'isFormula': True, 'formula': self.formula(m, t, c['id'])}],
+                ['ModifyColumn', tid, c['id'], {'type': typ}]]
+      if k == 'to_data_and_type':
+        return r.choice([[['ModifyColumn', tid, c['id'], {'isFormula': False, 'type': typ}]],
+                         [['ModifyColumn', tid, c['id'], {'isFormula': False}], ['ModifyColumn', tid, c['id'], {'type': typ}]]])
+      return [['ModifyColumn', tid, c['id'], {'type': typ}],
+              ['ModifyColumn', tid, c['id'], {'type': r.choice(['Int', 'Numeric', 'Text', 'Bool', 'Any'])}]]
+    if k == 'update_twice' and rows and dc:
+      x = r.choice(rows)
+      c = r.choice(dc)
+      return [['UpdateRecord', tid, x, {c['id']: self.value(c['type'], m)}],
+              ['UpdateRecord', tid, x, {c['id']: self.value(c['type'], m)}]]
+    if k == 'update_then_upsert' and rows and dc and self.flags.get('pattern_upsert', True):
+      x = r.choice(rows)
+      c = r.choice(dc)
+      look = [cc for cc in t['cols'] if vis(cc) and not cc['summarySourceCol'] and cc['type'].split(':')[0] in ('Int', 'Numeric', 'Text', 'Any', 'Bool', 'Choice')]
+      if not look:
+        return None
+      lc = r.choice(look)
+      rest = [cc for cc in dc if cc is not lc]
+      cv = {cc['id']: self.value(cc['type'], m, 0) for cc in rest if r.random() < 0.6}
+      return [['UpdateRecord', tid, x, {c['id']: self.value(c['type'], m)}],
+              ['AddOrUpdateRecord', tid, {lc['id']: self.value(lc['type'], m, 0)}, cv, {}]]
+    if k == 'rename_remove_formula':
+      cs = [c for c in t['cols'] if vis(c) and not c['summarySourceCol'] and c['ref'] not in m.groupby_sources]
+      if len(cs) < 2:
+        return None
+      a, b = r.sample(cs, 2)
+      out = [['RenameColumn', tid, a['id'], self.name('N') or 'Nn']]
+      out.append(['RemoveColumn', tid, b['id']])
+      fs = [c for c in t['cols'] if vis(c) and c['isFormula'] and c is not a and c is not b and not c['summarySourceCol']]
+      if fs:
+        out.append(['ModifyColumn', tid, r.choice(fs)['id'], {'formula': self.formula(m, t)}])
+      r.shuffle(out)
+      return out
+    if k == 'addcol_then_fill' and self._room(t):
+      cid = 'P%d' % self.n
+      self.n += 1
+      typ = self.pick_type(m, 0.2)
+      out = [['AddColumn', tid, cid, {'type': typ, 'isFormula': False}]]
+      if rows:
+        xs = r.sample(rows, min(len(rows), 2))
+        out.append(['BulkUpdateRecord', tid, xs, {cid: [self.value(typ, m) for _ in xs]}])
+      out.append(['AddRecord', tid, None, {cid: self.value(typ, m)}])
+      return out
+    if k == 'remove_add_column':
+      cs = [c for c in t['cols'] if vis(c) and not c['summarySourceCol'] and c['ref'] not in m.groupby_sources]
+      if not cs:
+        return None
+      c = r.choice(cs)
+      info = r.choice([{'type': self.pick_type(m, 0), 'isFormula': False},
+                       {'type': 'Any', 'isFormula': True, 'formula': self.formula(m, t, c['id'])}])
+      return [['RemoveColumn', tid, c['id']], ['AddColumn', tid, c['id'], info]]
+    if k == 'add_update_remove':
+      x = max(rows or [0]) + 1
+      out = [['AddRecord', tid, x, one(vals())]]
+      if dc:
+        c = r.choice(dc)
+        out.append(['UpdateRecord', tid, x, {c['id']: self.value(c['type'], m)}])
+      if r.random() < 0.6:
+        out.append(['RemoveRecord', tid, x])
+      return out
+    if k == 'update_then_remove' and rows and dc:
+      x = r.choice(rows)
+      c = r.choice(dc)
+      return [['UpdateRecord', tid, x, {c['id']: self.value(c['type'], m)}], ['RemoveRecord', tid, x]]
+    return None
 
   # Kinds that write metadata references from the (pre-bundle) model: only as a bundle's first action,
   # so that the generator itself never stores a reference to something an earlier action removed.
